@@ -143,10 +143,14 @@ func main() {
 		"normalisation": map[string]any{
 			"how":               "functions that do not exist on the reference tree (reference/known_funcs.txt) are inlined at source level into their in-package callers before the rules run (go/packages overlay; nothing written, nothing executed); on the reference tree the list below is empty and the step is a no-op",
 			"unknown_functions": p.NewFuncs,
+			"renamed_functions": p.Renamed,
 			"inlined_calls":     p.Inlined,
 			"calls_left_alone":  p.Skipped,
 			"notes":             p.Notes,
 		},
+	}
+	for _, rn := range p.Renamed {
+		fmt.Println("normalisation:", rn)
 	}
 	if len(p.NewFuncs) > 0 {
 		fmt.Printf("normalisation: %d function(s) unknown on the reference tree, %d call(s) inlined, %d left alone\n", len(p.NewFuncs), len(p.Inlined), len(p.Skipped))
